@@ -115,16 +115,17 @@ def float_literals(rng, n):
     out = ["0", "-0", "1", "0.1", "1e-45", "1.4e-45", "7e-46", "3.4028235e38", "3.4028236e38", "3.5e38", "1e39", "1e-320", "4.9e-324",
            "2.4e-324", "2.5e-324", "1.7976931348623157e308", "1.7976931348623159e308", "1e309", "16777217", "16777216.5",
            "9007199254740993", "0.30000000000000004", "5e-1", "123456789012345678901234567890", "1.00000005960464477539062500001",
-           "1.000000059604644775390625", "8.5", "+2.5e+3"]
+           "1.000000059604644775390625", "8.5", "+2.5e+3", ".5", "-.25", "+.5e1", ".000123", "5.", "-7.e2"]
     for _ in range(n):
         nd = rng.randint(1, 20)
         d = "".join(rng.choice("0123456789") for _ in range(nd))
         if rng.random() < 0.6:
             k = rng.randint(0, nd)
             d = d[:k] + "." + d[k:]
-            if d.startswith("."):
+            # (half of the literals that begin or end with the point are left like that: ".5", "5." are decimal literals too)
+            if d.startswith(".") and (len(d) == 1 or rng.random() < 0.5):
                 d = "0" + d
-            if d.endswith("."):
+            if d.endswith(".") and rng.random() < 0.5:
                 d = d + "0"
         if rng.random() < 0.6:
             d += "e%d" % rng.randint(-50, 50)
